@@ -1269,7 +1269,7 @@ impl ManageConnection for ServerPool {
                 "broken" => conn.is_bad(), "bad" => bad, "in_tx" => in_tx, "in_copy" => in_copy,
                 "da" => da, "dirty" => dirty);
         }
-        conn.is_bad()
+        conn.is_bad() || conn.is_unclean()
     }
 }
 
